@@ -6,11 +6,17 @@
    1. the point–segment kernel `psd2` (= `line_segment_distance²`) is the exact minimum over the
       closed segment, is attained, vanishes exactly on the segment;
    2. `Line × Line`: zero ⇔ the segments share a point; symmetric; otherwise one of the four
-      end-point distances and below all four;
+      end-point distances and below all four; **T2** `segseg_min_at_endpoint`: for disjoint segments
+      the smallest end-point distance is the minimum of `|a(s) − c(t)|²` over the whole unit square,
+      hence `Line × Line` is the true minimum over all pairs of points (`IsMinDist`);
    3. `fold(max_value, min)`: result attained by an element, lower bound of all, zero ⇔ an element is;
-   4. `nearest_neighbour_distance`: symmetric, the minimum over all vertex–segment pairs (both ways);
+   4. `nearest_neighbour_distance`: symmetric, the minimum over all vertex–segment pairs (both ways)
+      and — for line strings whose segments do not meet — over all pairs of points; `Line × LineString`
+      and `LineString × LineString` are the true minimum over all pairs of points;
    5. every kernel is non-negative and does not panic on operands with at least one segment;
-      the short-circuits give zero; dispatch (`calls`) lifts 3 to `distG`;
+      the short-circuits give zero; dispatch (`calls`) lifts 3 to `distG`; between operands of
+      dimension ≤ 1 (Point, Line, LineString and their Multi*/collections) `distG` is the true minimum
+      over all pairs of points of all pairs of parts (Point × LineString: where K4 does not strike);
    6. symmetry by construction of the mixed pairs, wrapper invariance (Rect/Triangle as Polygon,
       singleton Multi*, collection of one);
    7. finding K4: `Point × LineString` is zero exactly on the line string *only* where the
@@ -19,6 +25,9 @@
 import GeoProofs.Lemmas.C07Kernels
 import GeoProofs.Lemmas.C07Dispatch
 import GeoProofs.Lemmas.C07Bbox
+import GeoProofs.Lemmas.C07PBase
+import GeoProofs.Lemmas.C07PParts
+import GeoProofs.Lemmas.C07PRings
 
 namespace Geo.Proofs.C07
 open Geo Geo.Proofs.Kernel
@@ -91,6 +100,44 @@ theorem lineLine_dist_endpoint (a b c d : Pt) (h : lineLine a b c d = false) :
 
 example : lineLine ⟨0, 0⟩ ⟨5, 0⟩ ⟨2, 1⟩ ⟨7, 2⟩ = false := by decide +kernel
 
+/-- **T2 `segseg_min_at_endpoint`**: for two closed segments without a common point the minimum of
+`|a + s(b−a) − (c + t(d−c))|²` over `(s,t) ∈ [0,1]²` is the smallest of the four end-point–to–segment
+distances `psd2` — it bounds every value from below, is attained on the square, and is what
+`Line × Line` returns. (A convex quadratic without a zero on the square has no interior minimum:
+about the meeting point of the carrier lines it is homogeneous of degree 2, and for parallel
+directions it is constant along `s − k·t = const`; both paths reach the boundary of the square, where
+the function is a point–segment distance.) -/
+theorem segseg_min_at_endpoint (a b c d : Pt) (h : lineLine a b c d = false) :
+    (∀ s t : Rat, 0 ≤ s → s ≤ 1 → 0 ≤ t → t ≤ 1 →
+      min (min (psd2 a c d) (psd2 b c d)) (min (psd2 c a b) (psd2 d a b)) ≤
+        dist2 ⟨a.x + s * (b.x - a.x), a.y + s * (b.y - a.y)⟩ ⟨c.x + t * (d.x - c.x), c.y + t * (d.y - c.y)⟩) ∧
+    (∃ s t : Rat, 0 ≤ s ∧ s ≤ 1 ∧ 0 ≤ t ∧ t ≤ 1 ∧
+      min (min (psd2 a c d) (psd2 b c d)) (min (psd2 c a b) (psd2 d a b)) =
+        dist2 ⟨a.x + s * (b.x - a.x), a.y + s * (b.y - a.y)⟩ ⟨c.x + t * (d.x - c.x), c.y + t * (d.y - c.y)⟩) ∧
+    lineLine2 a b c d = .fin (min (min (psd2 a c d) (psd2 b c d)) (min (psd2 c a b) (psd2 d a b))) := by
+  have hno : ¬ ∃ p, SegMem p a b ∧ SegMem p c d := by
+    intro hc
+    have := (lineLine_iff a b c d).mpr hc
+    rw [h] at this; cases this
+  refine ⟨fun s t s0 s1 t0 t1 => segseg_min4_le_param hno ⟨s0, s1⟩ ⟨t0, t1⟩, ?_, lineLine2_eq_min4 h⟩
+  obtain ⟨x, y, hx, hy, e⟩ := min4_attained a b c d
+  obtain ⟨s, s0, s1, rfl⟩ := (SegMem_iff_segPt x a b).mp hx
+  obtain ⟨t, t0, t1, rfl⟩ := (SegMem_iff_segPt y c d).mp hy
+  exact ⟨s, t, s0, s1, t0, t1, e⟩
+
+example : min (min (psd2 ⟨0, 0⟩ ⟨2, 1⟩ ⟨7, 2⟩) (psd2 ⟨5, 0⟩ ⟨2, 1⟩ ⟨7, 2⟩))
+      (min (psd2 ⟨2, 1⟩ ⟨0, 0⟩ ⟨5, 0⟩) (psd2 ⟨7, 2⟩ ⟨0, 0⟩ ⟨5, 0⟩)) ≤
+    dist2 ⟨0 + (1/2) * (5 - 0), 0 + (1/2) * (0 - 0)⟩ ⟨2 + (1/3) * (7 - 2), 1 + (1/3) * (2 - 1)⟩ :=
+  (segseg_min_at_endpoint ⟨0, 0⟩ ⟨5, 0⟩ ⟨2, 1⟩ ⟨7, 2⟩ (by decide +kernel)).1 (1/2) (1/3)
+    (by norm_num) (by norm_num) (by norm_num) (by norm_num)
+
+/-- **Line × Line is the true minimum distance** of the two closed segments (intersecting or not):
+`IsMinDist A B m` = `m ≤ |x − y|²` for all `x ∈ A`, `y ∈ B`, with equality for some pair -/
+theorem lineLine_dist_is_min (a b c d : Pt) :
+    ∃ m, lineLine2 a b c d = .fin m ∧ IsMinDist (fun x => SegMem x a b) (fun y => SegMem y c d) m := by
+  obtain ⟨m, hm⟩ := lineLine2_finite a b c d
+  exact ⟨m, hm, lineLine2_IsMinDist a b c d hm⟩
+
 /-! ### 3. the `fold(max_value, min)` idiom -/
 
 /-- **min-fold**: over non-negative (non-panicking) values the fold is zero iff an element is -/
@@ -126,6 +173,33 @@ theorem nn_is_min {g1 g2 : List Pt} (h1 : segs g1 ≠ []) (h2 : segs g2 ≠ []) 
 
 example : segs [(⟨0, 0⟩ : Pt), ⟨1, 0⟩] ≠ [] := by simp [segs]
 
+/-- **nearest_neighbour_distance is the true minimum** over all pairs of points (not only vertex–segment
+pairs) of two line strings none of whose segments meet — by `segseg_min_at_endpoint`.
+`LsPts cs x` = `x` lies on a segment of `cs`. -/
+theorem nn_is_true_min {g1 g2 : List Pt} (h1 : segs g1 ≠ []) (h2 : segs g2 ≠ [])
+    (hno : ∀ s ∈ segs g1, ∀ t ∈ segs g2, lineLine s.1 s.2 t.1 t.2 = false) :
+    ∃ m, nnDist2 g1 g2 = .fin m ∧ IsMinDist (LsPts g1) (LsPts g2) m := by
+  obtain ⟨m, hm⟩ := nnDist2_finite h1 h2
+  refine ⟨m, hm, nnDist2_IsMinDist h1 h2 (fun s hs t ht hc => ?_) hm⟩
+  have := (lineLine_iff _ _ _ _).mpr hc
+  rw [hno s hs t ht] at this; cases this
+
+example : ∀ s ∈ segs [(⟨0, 0⟩ : Pt), ⟨1, 0⟩, ⟨1, 1⟩], ∀ t ∈ segs [(⟨3, 0⟩ : Pt), ⟨4, 2⟩],
+    lineLine s.1 s.2 t.1 t.2 = false := by decide +kernel
+
+/-- **LineString × LineString is the true minimum** over all pairs of points of the two line strings
+(zero through the `intersects` short-circuit exactly when they share a point) -/
+theorem lsLs_dist_is_min {as bs : List Pt} (h1 : segs as ≠ []) (h2 : segs bs ≠ []) :
+    ∃ m, lsLs2 as bs = .fin m ∧ IsMinDist (LsPts as) (LsPts bs) m := by
+  obtain ⟨m, hm⟩ := lsLs2_finite h1 h2
+  exact ⟨m, hm, lsLs2_IsMinDist h1 h2 hm⟩
+
+/-- **Line × LineString is the true minimum** over all pairs of points -/
+theorem lineLs_dist_is_min (a b : Pt) {cs : List Pt} (h : segs cs ≠ []) :
+    ∃ m, lineLs2 a b cs = .fin m ∧ IsMinDist (fun x => SegMem x a b) (LsPts cs) m := by
+  obtain ⟨m, hm⟩ := lineLs2_finite a b h
+  exact ⟨m, hm, lineLs2_IsMinDist a b cs hm⟩
+
 theorem nn_zero_iff {g1 g2 : List Pt} (h1 : segs g1 ≠ []) (h2 : segs g2 ≠ []) :
     nnDist2 g1 g2 = .fin 0 ↔ (∃ q ∈ g2, OnLs q g1) ∨ (∃ q ∈ g1, OnLs q g2) :=
   nnDist2_zero_iff h1 h2
@@ -154,6 +228,69 @@ theorem linePoly_zero_iff (a b : Pt) (poly : Poly) :
 theorem lsLs_zero_iff {as bs : List Pt} (h1 : segs as ≠ []) (h2 : segs bs ≠ []) :
     lsLs2 as bs = .fin 0 ↔ lsLsIntersects as bs = true ∨ (∃ q ∈ bs, OnLs q as) ∨ (∃ q ∈ as, OnLs q bs) :=
   lsLs2_zero_iff h1 h2
+
+/-! areal kernels once `intersects` has not fired: the value is the true minimum distance (all pairs
+of points) to the rings that the branch measures. (`RingsPts rs y` = `y` lies on a ring of `rs`. That
+the distance to a disjoint polygon *is* the distance to these rings is spec adequacy S2.) -/
+
+/-- **Line × Polygon**, not intersecting: the minimum over all points of the line and of all rings -/
+theorem linePoly_dist_is_ring_min {a b : Pt} {poly : Poly} (hi : polyLineIntersects poly a b = false)
+    (hr : ∀ r ∈ poly.ext :: poly.ints, segs r ≠ []) {m : Rat} (hm : linePoly2 a b poly = .fin m) :
+    IsMinDist (fun x => SegMem x a b) (RingsPts (poly.ext :: poly.ints)) m :=
+  linePoly2_IsMinDist hi hr hm
+
+example : polyLineIntersects ⟨[⟨0, 0⟩, ⟨4, 0⟩, ⟨0, 4⟩, ⟨0, 0⟩], []⟩ ⟨5, 5⟩ ⟨6, 8⟩ = false ∧
+    ∀ r ∈ (⟨[⟨0, 0⟩, ⟨4, 0⟩, ⟨0, 4⟩, ⟨0, 0⟩], []⟩ : Poly).ext :: (⟨[⟨0, 0⟩, ⟨4, 0⟩, ⟨0, 4⟩, ⟨0, 0⟩], []⟩ : Poly).ints,
+      segs r ≠ [] := by
+  refine ⟨by decide +kernel, ?_⟩
+  intro r hr
+  simp only [List.mem_cons, List.mem_nil_iff, or_false] at hr
+  subst hr
+  simp [segs]
+
+/-- **LineString × Polygon**, exterior branch: the minimum over all points of the line string and of
+the exterior ring -/
+theorem lsPoly_dist_is_ext_min {cs : List Pt} {poly : Poly} (hi : lsPolyIntersects cs poly = false)
+    (hc : segs cs ≠ []) (he : segs poly.ext ≠ [])
+    (hB : (!poly.ints.isEmpty && ringContainsCoord poly.ext (cs.headD ⟨0, 0⟩)) = false)
+    {m : Rat} (hm : lsPoly2 cs poly = .fin m) : IsMinDist (LsPts cs) (LsPts poly.ext) m :=
+  lsPoly2_ext_IsMinDist hi hc he hB hm
+
+example : lsPolyIntersects [⟨5, 5⟩, ⟨6, 8⟩, ⟨9, 9⟩] ⟨[⟨0, 0⟩, ⟨4, 0⟩, ⟨0, 4⟩, ⟨0, 0⟩], []⟩ = false ∧
+    (!(⟨[⟨0, 0⟩, ⟨4, 0⟩, ⟨0, 4⟩, ⟨0, 0⟩], []⟩ : Poly).ints.isEmpty &&
+      ringContainsCoord [⟨0, 0⟩, ⟨4, 0⟩, ⟨0, 4⟩, ⟨0, 0⟩] (([⟨5, 5⟩, ⟨6, 8⟩, ⟨9, 9⟩] : List Pt).headD ⟨0, 0⟩)) = false := by
+  decide +kernel
+
+/- full statement (without `hbb`; it follows from `hB` for a closed exterior ring — a point with
+non-zero winding number lies in the ring's bounding box — not proved here):
+   theorem lsPoly_dist_is_hole_min (hi) (hc) (hr) (hB) (hm) : IsMinDist (LsPts cs) (RingsPts poly.ints) m -/
+/-- **LineString × Polygon**, containment branch: the minimum over all points of the line string and of
+the hole rings -/
+theorem lsPoly_dist_is_hole_min_partial {cs : List Pt} {poly : Poly} (hi : lsPolyIntersects cs poly = false)
+    (hc : segs cs ≠ []) (hr : RingsOk poly.ints)
+    (hbb : bboxDisjoint (getBoundingRect cs) (getBoundingRect poly.ext) = false)
+    (hB : (!poly.ints.isEmpty && ringContainsCoord poly.ext (cs.headD ⟨0, 0⟩)) = true)
+    {m : Rat} (hm : lsPoly2 cs poly = .fin m) : IsMinDist (LsPts cs) (RingsPts poly.ints) m :=
+  lsPoly2_holes_IsMinDist hi hc hr hbb hB hm
+
+example :
+    let poly : Poly := ⟨[⟨0, 0⟩, ⟨9, 0⟩, ⟨9, 9⟩, ⟨0, 9⟩, ⟨0, 0⟩], [[⟨2, 2⟩, ⟨2, 7⟩, ⟨7, 7⟩, ⟨7, 2⟩, ⟨2, 2⟩]]⟩
+    let cs : List Pt := [⟨4, 4⟩, ⟨5, 5⟩]
+    lsPolyIntersects cs poly = false ∧
+    bboxDisjoint (getBoundingRect cs) (getBoundingRect poly.ext) = false ∧
+    (!poly.ints.isEmpty && ringContainsCoord poly.ext (cs.headD ⟨0, 0⟩)) = true := by
+  decide +kernel
+
+/-- **Polygon × Polygon**, exterior branch: the minimum over all points of the two exterior rings -/
+theorem polyPoly_dist_is_ext_min {a b : Poly} (hi : polyPolyIntersects a b = false)
+    (ha : segs a.ext ≠ []) (hb : segs b.ext ≠ [])
+    (hA : (!a.ints.isEmpty && ringContainsCoord a.ext (b.ext.headD ⟨0, 0⟩)) = false)
+    (hB : (!b.ints.isEmpty && ringContainsCoord b.ext (a.ext.headD ⟨0, 0⟩)) = false)
+    {m : Rat} (hm : polyPoly2 a b = .fin m) : IsMinDist (LsPts a.ext) (LsPts b.ext) m :=
+  polyPoly2_ext_IsMinDist hi ha hb hA hB hm
+
+example : polyPolyIntersects ⟨[⟨0, 0⟩, ⟨1, 0⟩, ⟨0, 1⟩, ⟨0, 0⟩], []⟩ ⟨[⟨3, 3⟩, ⟨4, 3⟩, ⟨3, 4⟩, ⟨3, 3⟩], []⟩ = false := by
+  decide +kernel
 
 /-- operands on which the code cannot panic: line strings and rings with at least one segment -/
 def baseOk : Base → Prop
@@ -233,6 +370,40 @@ theorem distG_is_min {a b : Geom} (h : CallsOk a b) {m : Rat} (hm : distG a b = 
     (∃ xy ∈ calls a b, baseD xy.1 xy.2 = .fin m) ∧ ∀ xy ∈ calls a b, DV.Lb m (baseD xy.1 xy.2) :=
   foldMin_fin (fun xy hxy => baseD_nonneg (h xy hxy).1 (h xy hxy).2) hm
 
+/-- **true minimum, single-part operands of dimension ≤ 1** (Point, Line, LineString with a segment):
+every one of the nine pairs returns the minimum of `|x − y|²` over all pairs of points of the two
+operands. `tolOk` is vacuous except for Point × LineString, where it excludes finding K4.
+   full statement (false on the pinned tree for Point × LineString, `tolerance_false_positive_witness`):
+   theorem baseD_linear_is_min (hx : linOk x) (hy : linOk y) : ∃ m, baseD x y = .fin m ∧ IsMinDist … m -/
+theorem baseD_linear_is_min_partial {x y : Base} (hx : linOk x) (hy : linOk y) (ht : tolOk x y) :
+    ∃ m, baseD x y = .fin m ∧ IsMinDist (linPts x) (linPts y) m :=
+  baseD_lin_IsMinDist hx hy ht
+
+example : linOk (.ls [⟨0, 0⟩, ⟨2, 2⟩]) ∧ linOk (.pt ⟨1, 2⟩) ∧ tolOk (.ls [⟨0, 0⟩, ⟨2, 2⟩]) (.pt ⟨1, 2⟩) := by
+  refine ⟨by simp [linOk, segs], trivial, ?_⟩
+  intro h; exact absurd h (by decide +kernel)
+
+/-- **true minimum lifted through the dispatch**: when all single-part calls of `distance(a, b)` are
+between operands of dimension ≤ 1 (Point, Line, LineString, MultiPoint, MultiLineString and
+collections of these), a finite distance is the minimum of `|x − y|²` over all pairs of points of all
+pairs of parts the dispatch visits: a lower bound for every such pair, attained by one.
+(`_partial`: `tolOk` excludes finding K4 on the Point × LineString calls.) -/
+theorem distG_linear_is_min_partial {a b : Geom}
+    (h : ∀ xy ∈ calls a b, linOk xy.1 ∧ linOk xy.2 ∧ tolOk xy.1 xy.2) {m : Rat} (hm : distG a b = .fin m) :
+    (∀ xy ∈ calls a b, ∀ x y, linPts xy.1 x → linPts xy.2 y → m ≤ dist2 x y) ∧
+    ∃ xy ∈ calls a b, ∃ x y, linPts xy.1 x ∧ linPts xy.2 y ∧ m = dist2 x y :=
+  callFold_IsMinDist h hm
+
+example : ∀ xy ∈ calls (.multiLineString [[⟨0, 0⟩, ⟨1, 0⟩], [⟨0, 2⟩, ⟨1, 3⟩]]) (.line ⟨5, 5⟩ ⟨6, 7⟩),
+    linOk xy.1 ∧ linOk xy.2 ∧ tolOk xy.1 xy.2 := by
+  intro xy hxy
+  have hc : calls (.multiLineString [[⟨0, 0⟩, ⟨1, 0⟩], [⟨0, 2⟩, ⟨1, 3⟩]]) (.line ⟨5, 5⟩ ⟨6, 7⟩) =
+      [(.ls [⟨0, 0⟩, ⟨1, 0⟩], .ln ⟨5, 5⟩ ⟨6, 7⟩), (.ls [⟨0, 2⟩, ⟨1, 3⟩], .ln ⟨5, 5⟩ ⟨6, 7⟩)] := by
+    simp [calls, callsFuel, callsF, expand, kindOf, multiMembers, geomW, Base.ofGeom?]
+  rw [hc] at hxy
+  simp only [List.mem_cons, List.mem_nil_iff, or_false] at hxy
+  rcases hxy with rfl | rfl <;> exact ⟨by simp [linOk, segs], trivial, trivial⟩
+
 /-! ### 6. symmetry by construction, wrapper invariance -/
 
 /-- dimension class of a single-part operand: point, line, line string, areal -/
@@ -241,6 +412,58 @@ def baseRank : Base → Nat
   | .ln _ _ => 1
   | .ls _ => 2
   | _ => 3
+
+/-- **true minimum** (see `baseD_linear_is_min_partial`): without a Point × LineString pair no hypothesis about the tolerance test is needed -/
+theorem baseD_linear_is_min {x y : Base} (hx : linOk x) (hy : linOk y)
+    (hk : baseRank x + baseRank y ≠ 2 ∨ baseRank x = 1) :
+    ∃ m, baseD x y = .fin m ∧ IsMinDist (linPts x) (linPts y) m := by
+  apply baseD_lin_IsMinDist hx hy
+  cases x <;> cases y <;> simp [baseRank] at hk <;> trivial
+
+example : linOk (.ln ⟨0, 0⟩ ⟨1, 1⟩) ∧ linOk (.ls [⟨0, 3⟩, ⟨2, 2⟩]) ∧
+    (baseRank (.ln ⟨0, 0⟩ ⟨1, 1⟩) + baseRank (.ls [⟨0, 3⟩, ⟨2, 2⟩]) ≠ 2 ∨ baseRank (.ln ⟨0, 0⟩ ⟨1, 1⟩) = 1) :=
+  ⟨trivial, by simp [linOk, segs], Or.inr rfl⟩
+
+/-- **the dispatch visits exactly the pairs of parts**: every single-part call of `distance(a, b)` is
+between a part of `a` and a part of `b` (in one of the two orders), and every such pair is visited.
+`parts g` = the single-part members of `g`, collections flattened. -/
+theorem calls_are_part_pairs (a b : Geom) :
+    (∀ xy ∈ calls a b, (xy.1 ∈ parts a ∧ xy.2 ∈ parts b) ∨ (xy.1 ∈ parts b ∧ xy.2 ∈ parts a)) ∧
+    (∀ x ∈ parts a, ∀ y ∈ parts b, (x, y) ∈ calls a b ∨ (y, x) ∈ calls a b) :=
+  calls_cover _ a b (le_refl _)
+
+/-- **`distance(a, b)` is the true minimum distance of two linear geometries**: for geometries whose
+parts are Points, Lines and LineStrings with at least one segment (Point, Line, LineString, MultiPoint,
+MultiLineString and arbitrarily nested collections of these), the result is finite and equals the
+minimum of `|x − y|²` over all points `x` of `a` and `y` of `b` (`GeomPts g x` = `x` lies on a part of
+`g`): it bounds all pairs from below and is attained.
+(`_partial`: `tolOk` excludes finding K4 on the Point × LineString pairs; the full statement without
+`ht` is false on the pinned tree, `tolerance_false_positive_witness`.) -/
+theorem distG_is_true_min_partial {a b : Geom} (ha : ∀ p ∈ parts a, linOk p) (hb : ∀ q ∈ parts b, linOk q)
+    (ht : ∀ p ∈ parts a, ∀ q ∈ parts b, tolOk p q) (na : parts a ≠ []) (nb : parts b ≠ []) :
+    ∃ m, distG a b = .fin m ∧ IsMinDist (GeomPts a) (GeomPts b) m := by
+  obtain ⟨m, hm⟩ := distG_lin_finite ha hb ht na nb
+  exact ⟨m, hm, distG_IsMinDist ha hb ht hm⟩
+
+/-- the same at full strength when no Point × LineString pair occurs (e.g. Line / LineString /
+MultiLineString operands on both sides, or Points against Points and Lines) -/
+theorem distG_is_true_min {a b : Geom} (ha : ∀ p ∈ parts a, linOk p) (hb : ∀ q ∈ parts b, linOk q)
+    (hk : ∀ p ∈ parts a, ∀ q ∈ parts b, baseRank p + baseRank q ≠ 2 ∨ baseRank p = 1)
+    (na : parts a ≠ []) (nb : parts b ≠ []) :
+    ∃ m, distG a b = .fin m ∧ IsMinDist (GeomPts a) (GeomPts b) m := by
+  apply distG_is_true_min_partial ha hb _ na nb
+  intro p hp q hq
+  have h := hk p hp q hq
+  revert h
+  cases p <;> cases q <;> simp [baseRank, tolOk]
+
+example :
+    let a : Geom := .collection [.multiLineString [[⟨0, 0⟩, ⟨1, 0⟩], [⟨0, 2⟩, ⟨1, 3⟩]], .line ⟨0, 5⟩ ⟨1, 5⟩]
+    let b : Geom := .lineString [⟨5, 5⟩, ⟨6, 7⟩, ⟨8, 7⟩]
+    (∀ p ∈ parts a, linOk p) ∧ (∀ q ∈ parts b, linOk q) ∧
+    (∀ p ∈ parts a, ∀ q ∈ parts b, baseRank p + baseRank q ≠ 2 ∨ baseRank p = 1) ∧
+    parts a ≠ [] ∧ parts b ≠ [] := by
+  simp [parts, partsList, linOk, segs, baseRank]
 
 /-- **dist2_symm**, mixed pairs: the `symmetric_distance_impl!` pairs are symmetric by construction -/
 theorem baseD_symm_mixed (x y : Base) (h : baseRank x ≠ baseRank y) : baseD x y = baseD y x := by
@@ -266,7 +489,13 @@ theorem lsLs_dist_symm (as bs : List Pt) : lsLs2 as bs = lsLs2 bs as := by
 `Polygon: Intersects<Polygon>` short-circuit and the two containment branches of `Polygon × Polygon`
 are not written symmetrically — their agreement for exchanged operands rests on validity (S2) and is
 what the correspondence checks bit for bit on every case (`FAIL:asymmetric`).
-   theorem polyPoly_symm (a b) : polyPoly2 a b = polyPoly2 b a       -- full statement, not proved -/
+   theorem polyPoly_symm (a b) : polyPoly2 a b = polyPoly2 b a       -- full statement: FALSE without
+   validity (`polyPoly_symm_invalid_witness`); for valid operands it needs "a hole of one polygon met
+   by the other ⇒ the exteriors/interiors meet" (Jordan-type reasoning about rings, S2), not proved.
+   The symmetry lemmas of C02 (`intersectsM_symm_partial`) cover every primitive pair *except*
+   Polygon × Polygon and Triangle × Triangle, precisely because of this asymmetric body.
+   Proved unconditionally: polygons without holes (`polyPoly_symm_noholes`), which covers all
+   Rect / Triangle pairs (`baseD_symm_rect_triangle`). -/
 theorem polyPoly_symm_partial (a b : Poly) (hI : polyPolyIntersects a b = polyPolyIntersects b a)
     (hA : (!a.ints.isEmpty && ringContainsCoord a.ext (b.ext.headD ⟨0, 0⟩)) = false)
     (hB : (!b.ints.isEmpty && ringContainsCoord b.ext (a.ext.headD ⟨0, 0⟩)) = false)
@@ -278,6 +507,31 @@ theorem polyPoly_symm_partial (a b : Poly) (hI : polyPolyIntersects a b = polyPo
 
 example : polyPolyIntersects ⟨[⟨0, 0⟩, ⟨1, 0⟩, ⟨0, 1⟩, ⟨0, 0⟩], []⟩ ⟨[⟨3, 3⟩, ⟨4, 3⟩, ⟨3, 4⟩, ⟨3, 3⟩], []⟩ =
     polyPolyIntersects ⟨[⟨3, 3⟩, ⟨4, 3⟩, ⟨3, 4⟩, ⟨3, 3⟩], []⟩ ⟨[⟨0, 0⟩, ⟨1, 0⟩, ⟨0, 1⟩, ⟨0, 0⟩], []⟩ := by
+  decide +kernel
+
+/-- **dist2_symm**, `Polygon × Polygon` for polygons without holes: unconditional (no validity, empty
+exteriors included) -/
+theorem polyPoly_symm_noholes (a b : Poly) (ha : a.ints = []) (hb : b.ints = []) :
+    polyPoly2 a b = polyPoly2 b a :=
+  polyPoly2_symm_noholes ha hb
+
+example : (⟨[⟨0, 0⟩, ⟨1, 0⟩, ⟨0, 1⟩, ⟨0, 0⟩], []⟩ : Poly).ints = [] := rfl
+
+/-- **dist2_symm**, all pairs of Rect / Triangle operands (they are hole-free polygons) -/
+theorem baseD_symm_rect_triangle (mn mx mn' mx' a b c x y z : Pt) :
+    baseD (.rc mn mx) (.rc mn' mx') = baseD (.rc mn' mx') (.rc mn mx) ∧
+    baseD (.tr a b c) (.tr x y z) = baseD (.tr x y z) (.tr a b c) ∧
+    baseD (.rc mn mx) (.tr a b c) = baseD (.tr a b c) (.rc mn mx) :=
+  ⟨polyPoly2_symm_noholes rfl rfl, polyPoly2_symm_noholes rfl rfl, rfl⟩
+
+/-- the hypothesis-free `polyPoly_symm` is false: for an *invalid* second operand (a "hole" ring
+outside its exterior ring, lying inside the first operand) `Polygon: Intersects<Polygon>` answers
+differently for the two orders, so the distance is 0 one way and positive the other way. (Outside the
+domain of the property — valid operands — but it shows that any proof must use validity.) -/
+theorem polyPoly_symm_invalid_witness :
+    let a : Poly := ⟨[⟨0, 0⟩, ⟨4, 0⟩, ⟨0, 4⟩, ⟨0, 0⟩], []⟩
+    let b : Poly := ⟨[⟨3, 3⟩, ⟨4, 3⟩, ⟨4, 4⟩, ⟨3, 3⟩], [[⟨1, 1⟩, ⟨2, 1⟩, ⟨1, 2⟩, ⟨1, 1⟩]]⟩
+    polyPoly2 a b = .fin 0 ∧ polyPoly2 b a = .fin 2 := by
   decide +kernel
 
 /-- **wrapper invariance**: a Rect / Triangle behaves as its `to_polygon()`; against another areal
